@@ -37,6 +37,23 @@ class ChunkIntrinsics(Intrinsics):
                 return args[0] if args[0].obj is not None else eng.mk_slice(st, [], cap=0)
             return eng.bi_append(st, args[0], args[1], ins.get("pos"), {"t": None})
 
+        @reg(H + "memHash")
+        def mem_hash(eng, st, fr, args, ins):
+            # uninterpreted per length: equal contents hash equal, anything else is the solver's choice (collisions included)
+            bs = eng.slice_read_all(st, args[0], ins.get("pos"))
+            n = len(bs)
+            f = self.uf.get(n)
+            if f is None:
+                f = z3.Function("memhash%d" % n, *([z3.BitVecSort(8)] * n + [z3.BitVecSort(64)])) if n else None
+                self.uf[n] = f
+            if n == 0:
+                t = self.uf.get("h0")
+                if t is None:
+                    t = z3.BitVec("memhash0", 64)
+                    self.uf["h0"] = t
+                return t
+            return f(*[bv(b, 8) for b in bs])
+
         @reg(H + "appendFloat")
         def append_float(eng, st, fr, args, ins):
             f = args[1]
